@@ -212,7 +212,10 @@ impl Flounder {
         let reserve = 5_000; // Try to always keep 5 seconds
         let available = time_left.saturating_sub(reserve);
         let base_time = available / 25;
-        let allocated = base_time + increment;
+        // Never plan to think longer than the clock allows (the increment is
+        // only credited after the move), keeping a small margin for overhead
+        let overhead = 50;
+        let allocated = (base_time + increment).min(time_left.saturating_sub(overhead));
 
         Some(Duration::from_millis(allocated))
     }
